@@ -1,19 +1,32 @@
 #!/bin/bash
-# mkworker.sh <name> : scratch copy of /verif and a git worktree of /repo for one builder, under /tmp/hw/<name>.
-#   /tmp/hw/<name>/verif  copy of /verif (with the Lean build output, without .build and work)
-#   /tmp/hw/<name>/repo   git worktree of /repo's HEAD on a new branch hw-<name>
-# the copy's harness depends on the worktree and builds into /tmp/hw/<name>/verif/.build/target
+# mkworker.sh <name> : scratch area for one builder under /tmp/hw/<name>.
+#   /tmp/hw/<name>/verif  git worktree of /verif on branch hw-<name> (commit there often: /tmp does not survive a restart,
+#                         the branch does), with /verif's Lean and cargo build output copied in
+#   /tmp/hw/<name>/repo   git worktree of /repo's HEAD on branch hw-<name>
+# the copy's harness depends on the repo worktree and builds into /tmp/hw/<name>/verif/.build/target; the two files
+# edited for that (harness/Cargo.toml, harness/.cargo/config.toml) are marked skip-worktree so they are never committed.
 set -e
 W=$1; [ -n "$W" ] || { echo "usage: mkworker.sh <name>"; exit 2; }
 B=/tmp/hw/$W
 mkdir -p $B
-[ -d $B/repo ] || git -C /repo worktree add -q -b hw-$W $B/repo HEAD
-rsync -a --delete --exclude .build --exclude work --exclude .git /verif/ $B/verif/
+git -C /repo worktree prune; git -C /verif worktree prune
+if [ ! -d $B/repo ]; then
+  if git -C /repo rev-parse -q --verify hw-$W >/dev/null; then git -C /repo worktree add -q $B/repo hw-$W
+  else git -C /repo worktree add -q -b hw-$W $B/repo HEAD; fi
+fi
+if [ ! -d $B/verif ]; then
+  if git -C /verif rev-parse -q --verify hw-$W >/dev/null; then git -C /verif worktree add -q $B/verif hw-$W
+  else git -C /verif worktree add -q -b hw-$W $B/verif HEAD; fi
+fi
 sed -i "s#path = \"/repo\"#path = \"$B/repo\"#" $B/verif/harness/Cargo.toml
-sed -i "s#/verif/.build/target#$B/verif/.build/target#" $B/verif/harness/.cargo/config.toml
-mkdir -p $B/verif/work $B/verif/.build
-# seed the cargo target dir with /verif's build output so the first build is incremental
+git -C $B/verif update-index --skip-worktree harness/Cargo.toml
+mkdir -p $B/verif/work $B/verif/.build $B/verif/evidence
+cp -n /repo/Cargo.lock $B/verif/harness/Cargo.lock 2>/dev/null || true
+cp -n /repo/rust-toolchain $B/verif/harness/rust-toolchain 2>/dev/null || true
+# seed the build output so the first builds are incremental
+[ -d $B/verif/lean/.lake ] || cp -a /verif/lean/.lake $B/verif/lean/.lake 2>/dev/null || true
 [ -d $B/verif/.build/target ] || cp -a /verif/.build/target $B/verif/.build/target 2>/dev/null || true
+[ -x $B/verif/frozen/rustfmt-pinned ] || cp -a /verif/frozen/rustfmt-pinned /verif/frozen/BUILT_FROM /verif/frozen/rustfmt-pinned.sha256 $B/verif/frozen/ 2>/dev/null || true
 cat > $B/env.sh <<EOF
 export VERIF_REPO=$B/repo
 export CARGO_NET_OFFLINE=true
